@@ -8,8 +8,9 @@
             counter / a slot (put side, undo paths), or taken by `Trees::sync` and not yet put into the slot.
             While the thread is inside `Lower::get` the amount is `lhold` of the embedded M1 thread: what is left
             of the request after the entry decrements M1 has performed so far; inside `Lower::put`: what the
-            entry increments have added so far.  Hence  tree_free(lower memory) + sum of credits  is unchanged
-            by every M1 step.
+            entry increments have added so far.  Hence  tree_free(lower memory) - sum of credits  is unchanged
+            by every M1 step (UpperConcM1.step_hold), as are the tree counters: the conservation equation
+            counter + slots + credits + in-hand = tree_free  is stable under M1 steps.
      g_ih : in-hand reservations (tree, class, free): a reservation swapped out of a slot or just created by
             reserve_or_steal and not yet installed in a slot / unreserved.
      g_bl : frames obtained from the lower allocator by a `UGet` that has not returned yet (the block belongs to
